@@ -275,15 +275,15 @@ def run(rep):
         raise tlc.TlcError("vacuity self-test: queue-then-register does not violate NoLostWake")
     rep.notes["queue_then_register_violates"] = "NoLostWake"
     # retransmission of the same request object (spec/Resend.tla): unregister-then-wake is safe, wake-then-unregister loses the second wake-up
-    for pf, dp, ident, expect in (("TRUE", "FALSE", "TRUE", None), ("TRUE", "TRUE", "TRUE", None), ("FALSE", "FALSE", "FALSE", "NoLostWake"),
-                                  ("TRUE", "TRUE", "FALSE", "NoLostWake")):
-        r3, _ = tlc.run("Resend", f"SPECIFICATION Spec\nCONSTANTS PopFirst = {pf}\n Dup = {dp}\n PopByIdentity = {ident}\nINVARIANT NoLostWake\nPROPERTY BothReturn\n",
+    for pf, dp, ident, atomic, expect in (("TRUE", "FALSE", "TRUE", "TRUE", None), ("TRUE", "TRUE", "TRUE", "TRUE", None), ("FALSE", "FALSE", "FALSE", "TRUE", "NoLostWake"),
+                                          ("TRUE", "TRUE", "FALSE", "TRUE", "NoLostWake"), ("TRUE", "TRUE", "TRUE", "FALSE", "NoLostWake")):
+        r3, _ = tlc.run("Resend", f"SPECIFICATION Spec\nCONSTANTS PopFirst = {pf}\n Dup = {dp}\n PopByIdentity = {ident}\n AtomicPop = {atomic}\nINVARIANT NoLostWake\nPROPERTY BothReturn\n",
                         workers=2, timeout=600, deadlock=True)
         if expect is None:
             tlc.must_ok(r3, "Resend")
-            rep.tlc(f"Resend PopFirst={pf} Dup={dp} PopByIdentity={ident}", r3)
+            rep.tlc(f"Resend PopFirst={pf} Dup={dp} PopByIdentity={ident} AtomicPop={atomic}", r3)
         elif r3.violated != expect:
-            raise tlc.TlcError(f"vacuity self-test: Resend.tla with PopFirst={pf} Dup={dp} PopByIdentity={ident} does not violate {expect} (got {r3.violated})")
+            raise tlc.TlcError(f"vacuity self-test: Resend.tla with PopFirst={pf} Dup={dp} PopByIdentity={ident} AtomicPop={atomic} does not violate {expect} (got {r3.violated})")
     rep.notes["wake_then_unregister_violates"] = "NoLostWake (Resend.tla)"
     rep.notes["unregister_by_key_with_a_repeated_answer_violates"] = "NoLostWake (Resend.tla)"
     rng = random.Random(rep.seed * 7919 + 14)
@@ -322,12 +322,14 @@ def run(rep):
             break
     rep.notes["retransmission_runs"] = nres
     # the dispatcher of a repeated answer held back at each of its source lines while the caller retransmits
-    for k in range(0, 45):
-        verdict, out = run_resend(7 + k, dup=True, victim_steps=k)
-        rep.case(("resend-sweep", k))
-        if verdict:
-            rep.violation(f"the dispatcher of the repeated answer stopped after {k} steps: " + verdict, {"kind": "resend", "seed": 7 + k, "dup": True, "victim_steps": k})
-            break
+    for hold in (False, True):
+        for k in range(0, 45):
+            verdict, out = run_resend(7 + k, dup=True, victim_steps=k, hold_second=hold)
+            rep.case(("resend-sweep", k, hold))
+            if verdict:
+                rep.violation(f"the dispatcher of the repeated answer stopped after {k} steps{' and resumed before the retransmission was answered' if hold else ''}: " + verdict,
+                              {"kind": "resend", "seed": 7 + k, "dup": True, "victim_steps": k, "hold_second": hold})
+                break
     for i in range(40 if rep.tier == "quick" else 800):
         seed = rng.getrandbits(30)
         verdict = run_two_interfaces(seed)
@@ -404,7 +406,7 @@ def replay(rep, path):
         rep.sample(r)
         return rep.finish()
     if r.get("kind") == "resend":
-        verdict, out = run_resend(r["seed"], dup=r.get("dup", False), victim_steps=r.get("victim_steps"))
+        verdict, out = run_resend(r["seed"], dup=r.get("dup", False), victim_steps=r.get("victim_steps"), hold_second=r.get("hold_second", False))
         if verdict:
             rep.violation(verdict, r)
         rep.case(str(r))
@@ -420,7 +422,7 @@ def replay(rep, path):
     return rep.finish()
 
 
-def run_resend(seed, router_cls=c13.Router, dup=False, victim_steps=None):
+def run_resend(seed, router_cls=c13.Router, dup=False, victim_steps=None, hold_second=False):
     """A retransmission: one caller sends the same request object twice, one after the other; every transmission is answered
     by the peer; both calls must return their answer.  (The second registration uses the same Hop-by-Hop key as the first.)"""
     from engine import vsched
@@ -458,9 +460,16 @@ def run_resend(seed, router_cls=c13.Router, dup=False, victim_steps=None):
 
     nsent = [0]
 
+    held = []          # dispatchers of the retransmission's answer (kept back in the two-preemption sweep)
+    nreq = [0]
+
     def on_send(msg):
         nsent[0] += 1
-        s.spawn(f"dispatcher{nsent[0]}", dispatcher, msg)
+        t = s.spawn(f"dispatcher{nsent[0]}", dispatcher, msg)
+        if msg is req:
+            nreq[0] += 1
+            if nreq[0] >= 2:
+                held.append(t)
         if dup and msg is req and nsent[0] <= 2 and not getattr(on_send, "repeated", False):
             on_send.repeated = True                      # the peer repeats its first answer
             s.spawn(f"dispatcher{nsent[0]}-repeated", dispatcher, msg)
@@ -482,7 +491,8 @@ def run_resend(seed, router_cls=c13.Router, dup=False, victim_steps=None):
                 n += 1
             g = 0
             while g < 4000:
-                go = [t for t in s.threads if t is not vic and t is not handler and s.enabled(t) == "go" and not s.is_idle(t)]
+                go = [t for t in s.threads if t is not vic and t is not handler and s.enabled(t) == "go" and not s.is_idle(t)
+                      and not (hold_second and t in held)]
                 hgo = s.enabled(handler) == "go" and not s.is_idle(handler)
                 if not go and not hgo:
                     break
@@ -490,6 +500,12 @@ def run_resend(seed, router_cls=c13.Router, dup=False, victim_steps=None):
                 g += 1
                 if nsent[0] >= 3 and not go:
                     break
+            if hold_second:
+                # second preemption: the answer to the retransmission is there but not handled yet; the held dispatcher finishes first
+                g = 0
+                while not vic.done and s.enabled(vic) == "go" and g < 4000:
+                    s.step(vic)
+                    g += 1
         out = s.run(until=lambda: all(t.done for t in s.threads if t is not handler), chooser=chooser)
     except vsched.Deadlock as e:
         out = "deadlock: " + str(e)
